@@ -247,9 +247,10 @@ def check_windows(res, N, bl, strand, frames):
     single_frame0 = frames[0 if strand == "+" else -1] == 0 and list(frames) == F.consistent_frames_plus_order(bl, strand, 0)
     for a in range(0, N):
         # (the documentation allows an end beyond the end of the chromosome: N + 1 and N + 3 mean "to the end")
-        for b in list(range(a + 1, N + 1)) + [N + 1, N + 3]:
+        # (b == a is the EMPTY window: no codon lies inside it - it used to be read as 'no window at all')
+        for b in list(range(a, N + 1)) + [N + 1, N + 3]:
             for expand in (False, True):
-                if b > N and expand:
+                if (b > N or b == a) and expand:
                     continue
                 for which in ("chromosome", "chunk"):
                     if which == "chunk" and (a + b) % 2:
@@ -308,7 +309,7 @@ def check_windows_chunk(res, N, bl, strand, frames, stride=1):
         res.state(("cdswc", bl, strand, tuple(frames), ca, cb))
         case = dict(kind="window", N=N, blocks=[list(b) for b in bl], strand=strand, frames=list(frames), chunk=[ca, cb])
         for a in range(0, N):
-            for b in range(a + 1, N + 1):
+            for b in range(a, N + 1):
                 if (a + b + ca + len(bl)) % stride:
                     continue  # (a fraction of the windows per chunk; every window is met on some chunk of some CDS)
                 trim5 = max((max(a, ca) - lo) if strand == "+" else (hi - min(b, cb)), 0)
